@@ -27,30 +27,24 @@ Definition write_variable_bits (value n : N) (w : writer) : outcome writer :=
     let* w1 := write_n 32 n value w in
     write_bit false w1.
 
-(* fn parse_variable_bits(reader, n) -> u32 ; fuel bounds the loop by the input length *)
-Fixpoint parse_variable_bits_loop (p : profile) (fuel : nat) (n value : N) (r : reader)
+(* fn parse_variable_bits(reader, n) -> u32 ; accumulates in u64, rejects values above u32::MAX;
+   fuel bounds the loop by the input length *)
+Fixpoint parse_variable_bits_loop (fuel : nat) (n value : N) (r : reader)
   : outcome (N * reader) :=
   match fuel with
   | O => Err
   | S f =>
       let* '(tmp, r1) := get_n 32 n r in
-      let v1raw := value + tmp in
-      if (two32 <=? v1raw) && (match p with Debug => true | Release => false end)
-      then Panic site_arith                           (* value += tmp overflows (Debug) *)
+      let v1 := value + tmp in
+      if two32 <=? v1 then Err
       else
-        let v1 := v1raw mod two32 in
         let* '(more, r2) := get r1 in
         if negb more then Ok (v1, r2)
-        else
-          let v2 := (v1 * 2 ^ n) mod two32 in       (* value <<= n : bits shifted out are lost *)
-          let v3raw := v2 + 2 ^ n in
-          if (two32 <=? v3raw) && (match p with Debug => true | Release => false end)
-          then Panic site_arith                       (* value += 1 << n overflows (Debug) *)
-          else parse_variable_bits_loop p f n (v3raw mod two32) r2
+        else parse_variable_bits_loop f n (v1 * 2 ^ n + 2 ^ n) r2
   end.
 
 Definition parse_variable_bits (p : profile) (n : N) (r : reader) : outcome (N * reader) :=
-  parse_variable_bits_loop p (S (length (rbits r))) n 0 r.
+  parse_variable_bits_loop (S (length (rbits r))) n 0 r.
 
 Definition expect_n (tbits n expected : N) (r : reader) : outcome reader :=
   let* '(v, r1) := get_n tbits n r in
@@ -89,6 +83,7 @@ Definition convert_av1_rpu_payload_to_regular (p : profile) (data : list N) : ou
   let* r := expect_n 16 16 t35_provider_code r in
   let* r := expect_n 32 32 t35_provider_oriented_code r in
   let* '(size, r) := parse_emdf_container p r in
+  let* _ := ensure (avail_ge (size * 8) r) in
   let* '(bytes, _) := get_bytes (length data) size r in
   Ok (25 :: bytes).
 
